@@ -301,7 +301,7 @@ class Executor(Generic[TContext]):
         self.pending_incremental_futures = set()
         self.background_futures = set()
         self.async_work_finished_hook_task = None
-        self._relevant_sub_fields: dict[tuple, CollectedFields] = {}
+        self._relevant_sub_fields: dict[tuple, tuple[CollectedFields, tuple]] = {}
         self._stream_usages: RefMap[FieldDetailsList, StreamUsage] = RefMap()
 
     @classmethod
@@ -1825,7 +1825,8 @@ class Executor(Generic[TContext]):
             if len(field_details_list) == 1  # optimize most frequent case
             else (return_type, *map(id, field_details_list))
         )
-        collected_fields: CollectedFields | None = relevant_sub_fields.get(key)
+        cached = relevant_sub_fields.get(key)
+        collected_fields: CollectedFields | None = cached[0] if cached else None
         if collected_fields is None:
             collected_fields = collect_subfields(
                 self.schema,
@@ -1836,7 +1837,9 @@ class Executor(Generic[TContext]):
                 field_details_list,
                 self.hide_suggestions,
             )
-            relevant_sub_fields[key] = collected_fields
+            # Keep a reference to the field details so that their ids, which are
+            # used as cache key, cannot be reused while the cache entry exists.
+            relevant_sub_fields[key] = (collected_fields, tuple(field_details_list))
         return collected_fields
 
 
